@@ -46,7 +46,8 @@ class ScopeMetrics:
             else f"[{self.trace_id}] [{self.identifier}]"
         )
         self._logger: Logger = logger or getLogger(name=scope)
-        self._parent: Self | None = parent if parent else None
+        # a scope created after its parent has already completed can't be tracked by it anymore
+        self._parent: Self | None = parent if parent and not parent._completed.done() else None
         self._metrics: dict[type[State], State] = {}
         self._nested: list[ScopeMetrics] = []
         self._timestamp: float = monotonic()
@@ -54,7 +55,7 @@ class ScopeMetrics:
         self._loop: AbstractEventLoop = get_event_loop()
         self._completed: Future[float] = self._loop.create_future()
 
-        if parent := parent:
+        if parent := self._parent:
             parent._nested.append(self)
 
         freeze(self)
